@@ -252,6 +252,25 @@ Close(s) ==
     /\ last' = [a |-> "close", sids |-> <<s>>]
     /\ Step
 
+(* A listener closed in the middle of a handshake: a SYN from (sa, sp) has  *)
+(* reached listener s through address da (accept_syn: child in SynReceived), *)
+(* the SYN-ACK is still on the wire when the listener is closed; on_close    *)
+(* (CloseListener) resets and removes the half-open child together with the  *)
+(* listener, and the client's late ACK finds nothing.  The tables end up as   *)
+(* after Close(s).  (Defined after ImplSyn's use: see CloseMidMC.)            *)
+CloseMid(s, from, fam, sa, sp, da) ==
+    /\ Budget
+    /\ s \in 1..Len(isock) /\ isock[s].open /\ isock[s].listen /\ isock[s].fam = fam
+    /\ ~Local(from, da)
+    /\ isock' = [isock EXCEPT ![s].open = FALSE]
+    /\ binds' = [binds EXCEPT ![isock[s].h] = RemoveFds(@, {s})]
+    /\ conns' = [conns EXCEPT ![isock[s].h] = RemoveConns(@, {s})]
+    /\ UNCHANGED cursor
+    /\ P_Close({s})
+    /\ last' = [a |-> "close", sids |-> <<s>>,
+                mid |-> [from |-> from, fam |-> fam, sa |-> sa, sp |-> sp, da |-> da, dp |-> isock[s].port]]
+    /\ Step
+
 (* both ends of an established connection are dropped and the close        *)
 (* handshake runs to completion: both sockets are reaped                    *)
 CloseConn(c) ==
@@ -428,6 +447,12 @@ ProbeSynConn    == ProbeSynAny /\ last'.cls = "conn"
 ProbeSynRst     == ProbeSynAny /\ last'.cls = "rst"
 ProbeSynUnowned == ProbeSynAny /\ last'.cls = "unowned"
 ProbeDataMC == \E c \in 1..Len(isock) : ProbeActs /\ ProbeData(c)
+CloseMidMC == /\ \E from \in StallHosts, fam \in Fams, da \in ConnAddrs, s \in 1..Len(isock) :
+                 /\ "tcp" \in Protos
+                 /\ s \in 1..Len(isock) /\ isock[s].open /\ isock[s].listen /\ isock[s].fam = fam
+                 /\ ImplSyn(from, fam, FirstAddr(from), SynPort, da, isock[s].port).obs = {s}
+                 /\ CloseMid(s, from, fam, FirstAddr(from), SynPort, da)
+              /\ last'.a = "close"
 StallMC == /\ \E from \in StallHosts, fam \in Fams, da \in ConnAddrs : \E dp \in ConnPorts \cup LiveListenerPorts(fam) :
               "tcp" \in Protos /\ Stall(from, fam, FirstAddr(from), SynPort, da, dp)
            /\ last'.a = "stall"
@@ -458,6 +483,7 @@ NextCov ==
     \/ ProbeSynUnowned
     \/ ProbeDataMC
     \/ StallMC
+    \/ CloseMidMC
 
 \* the alphabet (design-level runs, behaviour generation)
 BindMC == /\ \E h \in BindHosts, proto \in Protos, fam \in Fams, addr \in BindAddrs, port \in BindPorts :
@@ -473,6 +499,7 @@ Next ==
     \/ ConnectUdpMC
     \/ ConnectMC
     \/ StallMC
+    \/ CloseMidMC
 
 Spec == Init /\ [][Next]_vars
 SpecCov == Init /\ [][NextCov]_vars
